@@ -148,6 +148,27 @@ theorem failed_leaves_nothing (prog : Pid → Params) (s1 s2 : Sched) (p : Pid)
   · rw [ho] at h2; exact h2
   · rw [ho, h1.2] at h2; cases h2.2
 
+/-- kill at any point before the process' own `link()` has taken effect: whatever the others and the
+(dead) process are scheduled to do afterwards, it has published nothing; only its temporary name may remain -/
+theorem killed_before_link_leaves_nothing (prog : Pid → Params) (s1 s2 : Sched) (p : Pid)
+    (hpc : ∀ r, ((reach prog s1).procs p).pc ≠ .done r)
+    (hpc' : ((reach prog s1).procs p).pc ≠ .unlink .linked) :
+    let s := reach prog ((s1 ++ [(p, .kill)]) ++ s2)
+    (s.procs p).linked = false ∧
+    ∀ n i, s.names n = some i → (s.inodes i).owner = p → n = .tmp (s.procs p).tmp := by
+  have h0 := unpublished_before_link prog s1 p hpc hpc'
+  have hk : reach prog (s1 ++ [(p, .kill)]) = step prog (reach prog s1) p .kill := by
+    unfold reach; rw [run_append]; rfl
+  refine failed_leaves_nothing prog (s1 ++ [(p, .kill)]) s2 p ?_ ?_
+  · rw [hk]; unfold step
+    split
+    · next h => simp [gaveUp, h]
+    · simp [gaveUp, upd_apply]
+  · rw [hk]; unfold step
+    split
+    · exact h0
+    · simpa [upd_apply] using h0
+
 /-- in particular the artifact name is never bound to data of such a process -/
 theorem failed_never_under_artifact_name (prog : Pid → Params) (s1 s2 : Sched) (p : Pid)
     (hg : gaveUp ((reach prog s1).procs p) = true)
